@@ -703,6 +703,36 @@ theorem multiCall_per_band (amps : List (Amp ℝ × Oper ℝ)) (cs : List (Chan 
     obtain ⟨_, _, _, h4, h5⟩ := call_spec ao.1 ao.2 cs r hc
     exact ⟨ao, hao, hc, h4, h5⟩
 
+/-- **never exceeds p_max, per band**: in a `Multiband_amplifier` every band amplifier clamps on the power of the
+channels of ITS OWN band: with a flat profile the amplified incoming power of each band is at most that band
+amplifier's p_max, whatever the other bands carry, and a band that does not saturate keeps its set gain -/
+theorem multiband_total_out_le_pmax_per_band (amps : List (Amp ℝ × Oper ℝ)) (cs : List (Chan ℝ)) (outs : List (Out ℝ))
+    (h : multiCall amps cs = some outs) :
+    ∀ r ∈ outs, ∃ ao ∈ amps, call ao.1 ao.2 cs = some r ∧
+      (let ps := (demux ao.1.fMin ao.1.fMax cs).map (fun c => attenuate ao.2.inVoa c.p)
+       r.pinDb = watt2dbm (sumL ps) ∧
+       ((∀ p ∈ ps, 0 < p) →
+          watt2dbm (sumL (ps.map (fun p => p * db2lin r.effGain))) ≤ ao.1.pMax ∧
+          (r.pinDb + ao.2.gain ≤ ao.1.pMax → r.effGain = ao.2.gain))) := by
+  intro r hr
+  obtain ⟨ao, hao, hc, _, _⟩ := multiCall_per_band amps cs outs h r hr
+  refine ⟨ao, hao, hc, ?_⟩
+  obtain ⟨_, hpin, heff, _, _⟩ := call_spec ao.1 ao.2 cs r hc
+  intro ps
+  refine ⟨hpin, ?_⟩
+  intro hpos
+  have hne : ps ≠ [] := by
+    intro hnil
+    have hk : demux ao.1.fMin ao.1.fMax cs = [] := by
+      simpa [ps] using hnil
+    have : call ao.1 ao.2 cs = none := by simp [call, hk]
+    rw [this] at hc; cases hc
+  constructor
+  · have := total_out_le_pmax ps ao.2.gain ao.1.pMax hne hpos
+    rw [heff, hpin]; exact this
+  · intro hns
+    rw [heff]; exact (effGain_eq_set_iff _ _ _).2 hns
+
 /-! ### non-vacuity -/
 example : updateDualStage (⟨23, 26, 15⟩ : StageLimits ℝ) ⟨25, 16, 8⟩ 25 = some ⟨25, 16 + 26, 25⟩ := by
   simp [updateDualStage, dualStageOk]; norm_num
